@@ -131,11 +131,11 @@ Theorem C12_generic_total_wf : forall (T : Type) (K : kops T) (p : profile) (met
   (forall a b c, k_ltb K a b = true -> k_ltb K b c = true -> k_ltb K a c = true) ->
   (forall a b c, k_ltb K a b = false -> k_ltb K b c = false -> k_ltb K a c = false) ->
   (forall a, k_eqb K a a = true) ->
-  (forall va vb md sa sb sx, k_ltb K va (k_max K) = true -> k_ltb K vb (k_max K) = true -> k_ltb K md (k_max K) = true ->
-     k_ltb K (k_upd K va vb md sa sb sx) (k_max K) = true) ->
+  (forall va vb md sa sb sx, k_ltb K va (k_inf K) = true -> k_ltb K vb (k_inf K) = true -> k_ltb K md (k_inf K) = true ->
+     k_ltb K (k_upd K va vb md sa sb sx) (k_inf K) = true) ->
   forall s d (m : list T) (n : N),
   (n < two32)%N -> wf_shape n (N.of_nat (length m)) ->
-  Forall (fun v => k_ltb K v (k_max K) = true) (square_all K m) ->
+  Forall (fun v => k_ltb K v (k_inf K) = true) (square_all K m) ->
   (exists s' d' m', generic_with K p meth s d m n = Ok (s', d', m') /\ wf_dend (d_obs d') (d_steps d'))
   \/ generic_with K p meth s d m n = Panic PNaN.
 Proof. exact generic_total_wf. Qed.
@@ -146,7 +146,7 @@ Print Assumptions C12_generic_total_wf.
 Theorem C12_selection_total_all_f64 : forall (p : profile) (a : algo) (meth : method) s d (m : list PrimFloat.float) (n : N),
   meth = Single \/ meth = Complete ->
   (n < two32)%N -> wf_shape n (N.of_nat (length m)) ->
-  Forall (fun v => PrimFloat.ltb v (f_max F64) = true) m ->
+  Forall (fun v => PrimFloat.ltb v (f_inf F64) = true) m ->
   (exists s' d' m', run_with F64 p a meth s d m n = Ok (s', d', m') /\ wf_dend (d_obs d') (d_steps d'))
   \/ run_with F64 p a meth s d m n = Panic PNaN.
 Proof. exact selection_total_wf_all_f64. Qed.
@@ -155,7 +155,7 @@ Print Assumptions C12_selection_total_all_f64.
 Theorem C12_selection_total_all_f32 : forall (p : profile) (a : algo) (meth : method) s d (m : list f32) (n : N),
   meth = Single \/ meth = Complete ->
   (n < two32)%N -> wf_shape n (N.of_nat (length m)) ->
-  Forall (fun v => Flocq.IEEE754.BinarySingleNaN.Bltb v (f_max F32) = true) m ->
+  Forall (fun v => Flocq.IEEE754.BinarySingleNaN.Bltb v (f_inf F32) = true) m ->
   (exists s' d' m', run_with F32 p a meth s d m n = Ok (s', d', m') /\ wf_dend (d_obs d') (d_steps d'))
   \/ run_with F32 p a meth s d m n = Panic PNaN.
 Proof. exact selection_total_wf_all_f32. Qed.
